@@ -100,6 +100,10 @@ inductive CEv
   -- (NOT emitted when the loop is left by `break`, `return` or an exception: slots stay unfilled)
   | fillBegin (c : Nat)
   | fillEnd (c : Nat)
+  -- `for i in range(bound): c[i] = NULL`: every slot of the array is initialised
+  | nullInit (c : Nat) (bound : String)
+  -- `for i in range(bound): if c[i] is not NULL: fn(mgr, c[i])`: every slot that was written
+  | derefNonNull (c : Nat) (fn bound : String)
   -- the local name through which `x` was reached (`f.node`) is rebound or deleted, and `f` was bound
   -- to the result of the call `via` (a handle that nothing else is known to keep alive)
   | handleDrop (x : Nat) (via : String)
